@@ -9,6 +9,7 @@ in which no mutator ran (catches changes made outside the builtin's own window, 
 import collections
 import copy
 import random
+import re
 from decimal import Decimal
 
 from lib import heap
@@ -282,7 +283,12 @@ def run_case(case, ctx):
         except Exception as e:
             ctx.cov('exception_classes', type(e).__name__)
     ctx.count('cases_run')
-    if W.mutator_calls == m0:
+    statement_forms = case[0] == 'callx' and case[-1] == 'fuzz' and re.search(r'(?<![=!<>])=(?![=>])|\bdel\b', src) is not None
+    if statement_forms:
+        # a generated program with an assignment, a compound assignment or del changes names by a STATEMENT (not a builtin's doing): only the
+        # per-call windows are judged for it
+        ctx.count('end_to_end_checks_skipped(program text contains an assignment or del)')
+    if W.mutator_calls == m0 and not statement_forms:
         ctx.count('end_to_end_checks')
         skip = {k for k, v in names.items() if id(v) in W.self_mutating}
         after_all = {k: heap.fingerprint(v) for k, v in names.items() if k in before_all and k not in skip}
